@@ -723,6 +723,39 @@ def rank_alignment(ctx, world, modes=("vjp", "jvp")):
                 ctx.fail("A3.rank", inst, f"{e.mode}:{e.prim_id}|zip-of-shapes", e.loc, f"`{(norm_text(z.node) if z.node is not None else str(z))[:70]}` pairs the entries of two shapes from the left and nothing in the rule establishes that the two arrays have the same rank: with prepended (broadcast) axes the pairs are shifted", "the operand with fewer dimensions than the result (axes prepended by broadcasting), with a size-1 axis that lines up - left-aligned - with a size-1 entry of the longer shape")
     if n == 0:
         ctx.ob("A3.rank", "no rule pairs the shapes of two different arrays entry by entry with zip()", True, "autograd/numpy/*", nontrivial=False)
+    # trailing-aligned options: tile's reps.  `for axis, rep in enumerate(reps)` numbers the entries from axis 0; NumPy
+    # aligns a short reps with the LAST axes.  The numbering has to start at (rank of the operand - len(reps)) - any
+    # start expression that reads the operand's rank - unless the rule establishes equal lengths.
+    opts = facts.load("trailing_aligned_options")["options"]
+    for e in world.table.entries:
+        if e.spec != "maker" or e.mode not in modes or not world.in_numpy_scope(e) or not is_numpy_callable(e.prim) or base_name(e.prim) not in opts or e.argnum != 0:
+            continue
+        oname = opts[base_name(e.prim)]
+        ir = world.ir(e)
+        if ir is None or not ir.ok:
+            ctx.ob("A3.rank", f"{construct_of(e)}|{oname}", None, e.loc)
+            continue
+        terms = [x for root in (ir.made, ir.result) if root is not None for x in walk(expand(world.ev, root, ("autograd.core.vspace",)))]
+        is_opt = lambda t: t.op == "arg" and t.get("name") == oname
+        # (the rank of the operand, or of the answer: ndim(ans) - len(reps) is the same offset - 0 when reps is longer)
+        is_arr = lambda v: (v.op == "arg" and v.get("index") == 0) or (v.op == "sym" and v.get("role") == "ans")
+        reads_rank = lambda t: any((x.op == "attr" and x.name in ("ndim", "shape") and is_arr(x.obj)) or (x.op == "call" and len(x.args) == 1 and is_arr(x.args[0]) and (lambda r_: r_ is not None and is_numpy_callable(r_) and base_name(r_) in ("ndim", "shape"))(resolve_callee(world.ev, x)[0])) for x in walk(t))
+        enums = []
+        for t in terms:
+            if t.op == "call" and t.fn.op == "ref" and t.fn.ref.qual == "builtins.enumerate" and t.args and any(is_opt(x) for x in walk(t.args[0])) and not any(t is z for z in enums):
+                enums.append(t)
+        guarded = any((t.op in ("assert", "when", "if") and any(c.op == "cmp" and c.opname in ("Eq", "NotEq", "Lt", "LtE", "Gt", "GtE") and any(is_opt(x) for x in walk(c)) and reads_rank(c) for c in walk(t.cond))) for t in terms)
+        if not enums:
+            uses = any(is_opt(x) for x in terms)
+            ctx.ob("A3.rank", f"{construct_of(e)}|{oname}: no enumeration of the option by axis number", True if not uses else None, e.loc, nontrivial=False)
+            continue
+        for z in enums:
+            start = z.args[1] if len(z.args) > 1 else z.kw.get("start")
+            inst = f"{construct_of(e)}|{(norm_text(z.node) if z.node is not None else str(z))[:50]}"
+            if (start is not None and reads_rank(start)) or guarded:
+                ctx.ob("A3.rank", inst, True, e.loc)
+            else:
+                ctx.fail("A3.rank", inst, f"{e.mode}:{e.prim_id}|{oname}-numbered-from-axis-0", e.loc, f"`{(norm_text(z.node) if z.node is not None else str(z))[:60]}` numbers the entries of `{oname}` from axis 0; NumPy aligns a `{oname}` with fewer entries than the operand has axes with the TRAILING axes (prepends 1s): the entries are applied to the wrong axes", f"{base_name(e.prim)}(x, 2) on an array with ndim >= 2 whose leading axis has even length (the cotangent is split along axis 0 instead of the last axis)")
 
 
 def restored_rank(ctx, world, modes=("vjp",)):
